@@ -353,23 +353,29 @@ Theorem C18_generated_code_is_model :
   (forall ts, gen_tags_any_interesting ts = any_interesting_now ts) /\
   (forall ts, gen_relation_polygon ts = relation_polygon ts) /\
   (forall T nodes ts,
-     gen_way_polygon T nodes ts = res_opt (way_polygon_wn (map decode_rule T) nodes ts)) /\
-  map decode_rule raw_table_now = RT.
+     gen_way_polygon T (nodes, ts) = res_opt (way_polygon_wn (map decode_rule T) nodes ts)) /\
+  map decode_rule raw_table_now = RT /\
+  (* ... and on the table the code really has after its own init() (the run-time dump) *)
+  (forall nodes ts,
+     gen_way_polygon poly_runtime_rules (nodes, ts) = res_opt (way_polygon_wn RT nodes ts)).
 Proof.
   split; [exact gen_tags_find_ok|]. split; [exact gen_tags_find_tag_ok|].
   split; [exact gen_tags_has_tag_ok|]. split; [exact gen_tags_map_ok|].
   split; [exact gen_tags_any_interesting_ok|]. split; [exact gen_relation_polygon_ok|].
-  split; [exact gen_way_polygon_ok|exact raw_table_now_is_RT].
+  split; [exact gen_way_polygon_ok|]. split; [exact raw_table_now_is_RT|].
+  intros nodes ts. rewrite gen_way_polygon_ok.
+  replace (map decode_rule poly_runtime_rules) with RT; [reflexivity|].
+  rewrite <- runtime_table_is_RT. unfold runtime_table. apply map_ext. intros [[k c] vs]. reflexivity.
 Qed.
 Print Assumptions C18_generated_code_is_model.
 
 Example ex_generated_code_runs :
   gen_way_polygon raw_table_now
-    [mkWayNode 100 0 0 0 0; mkWayNode 101 0 0 0 0; mkWayNode 102 0 0 0 0; mkWayNode 100 0 0 0 0]
-    [("highway", "elevator"); ("name", "x")] = Some true /\
+    ([mkWayNode 100 0 0 0 0; mkWayNode 101 0 0 0 0; mkWayNode 102 0 0 0 0; mkWayNode 100 0 0 0 0],
+     [("highway", "elevator"); ("name", "x")]) = Some true /\
   gen_way_polygon raw_table_now
-    [mkWayNode 100 0 0 0 0; mkWayNode 101 0 0 0 0; mkWayNode 102 0 0 0 0; mkWayNode 100 0 0 0 0]
-    [("natural", "cliff")] = Some false /\
+    ([mkWayNode 100 0 0 0 0; mkWayNode 101 0 0 0 0; mkWayNode 102 0 0 0 0; mkWayNode 100 0 0 0 0],
+     [("natural", "cliff")]) = Some false /\
   gen_relation_polygon [("type", "boundary")] = true.
 Proof. vm_compute. repeat split. Qed.
 
